@@ -26,7 +26,7 @@ pub fn props() -> Vec<Prop> {
             run: c10,
             tools: None,
             rule: "for every (link position, target position) pair over 2 names up to depth 4 (quick) / 6 (thorough), target kind in {file, dir, absent, link-to-file, link-to-dir}, and both spellings of the target (absolute, relative to the link's directory): a fresh filesystem is prepared, symlink(link, target) is called and the laws of the statement are checked through the API (readlink_abs == abs(target); clean(dir(link)/readlink) == readlink_abs and readlink relative; is_symlink && !is_file && !is_dir; is_symlink_dir/file == kind of the target at creation; entry()/follow(true) swaps path and alt exactly once; remove / chmod / chown without follow act on the link and leave the target's snapshot unchanged; readlink/readlink_abs fail on every non-link). Both backends; on Stdfs additionally std::fs::read_link resolves to the same target. distinct_nontrivial = distinct (backend, depth(link), depth(target), relation, target kind, spelling) tuples.",
-            assumptions: &["on Stdfs dangling or link targets are only judged for the creation step (C02's domain)", "readlink may be absolute only when the target is the link's own directory (C16)", "the Stdfs half runs as root (chown must be able to succeed)"],
+            assumptions: &["on Stdfs, for targets that are missing or links themselves, the target-recording clauses (readlink_abs, the readlink navigation law, entry path/alt) are judged; the kind flags and the acts-on-the-link clauses only inside C02's domain", "readlink may be absolute only when the target is the link's own directory (C16)", "the Stdfs half runs as root (chown must be able to succeed)"],
             shards_quick: 8,
             shards_thorough: 16,
             budget_quick_s: 240,
@@ -489,6 +489,37 @@ fn c10_scenario<V: VirtualFileSystem>(v: &V, backend: &str, root: &str, l: &str,
         let abs = if raw.starts_with('/') { raw.clone() } else { format!("{}/{}", rl(&ld), raw) };
         if go_clean(&abs) != tabs {
             bad("std::fs::read_link-resolves-to-target→differs", format!("raw text {:?}", raw));
+        }
+        // the target-recording clauses do not depend on what the target is: readlink_abs is the abs of the target that
+        // was given (not of whatever the target itself points to), and readlink navigates to it
+        match v.readlink_abs(rl(l)) {
+            Ok(p) if ps(&p) == tabs => {},
+            other => bad("readlink_abs==abs(target)→differs", format!("{:?}", other.map(|p| ps(&p)).map_err(|e| e.to_string()))),
+        }
+        match v.readlink(rl(l)) {
+            Ok(p) => {
+                let r = ps(&p);
+                let joined = if r.starts_with('/') { r.clone() } else { format!("{}/{}", rl(&ld), r) };
+                if go_clean(&joined) != tabs {
+                    bad("clean(dir(link)/readlink)==readlink_abs→differs", r);
+                }
+            },
+            Err(e) => bad("readlink→Err", e.to_string()),
+        }
+        if tkind == "link" || tkind == "linkdir" {
+            match v.entry(rl(l)) {
+                Ok(e) => {
+                    let v0 = entry_view(&e);
+                    if v0.path != rl(l) || v0.alt != tabs || !v0.is_symlink {
+                        bad("entry(path=link,alt=target)→differs", format!("{:?}", v0));
+                    }
+                    let f1 = entry_view(&e.clone().follow(true));
+                    if f1.path != tabs || f1.alt != rl(l) {
+                        bad("follow(true)-swaps-path-and-alt→differs", format!("{:?}", f1));
+                    }
+                },
+                Err(e) => bad("entry(link)→Err", e.to_string()),
+            }
         }
         return;
     }
